@@ -25,6 +25,7 @@ RULE = (
     "of the 2^(k-1)-1 two-block coarsenings exactly once and leaves the structure unchanged.  Random: triple subsets on 5-6 leaves (105 / 945 "
     "reference trees); supertree of 2-3 restrictions of a random tree displays each restriction; union histories up to 30 steps on up to 9 "
     "elements.  Non-trivial: triple set neither empty nor complete / >=1 effective union / tree with >=4 leaves; distinct by SHA-1 of the case."
+    '  Also: all_supertrees == all binary trees on <=6 leaves displaying every input (each once); supertree inputs restricted from two different trees (None iff no displaying tree exists); hostile leaf labels (:,;()[]= space tab accents, empty) in half of the random triple-set cases; inputs unchanged by the calls.'
 )
 ASSUMPTIONS = ["leaf labels distinct strings", "triples given in the canonical form (a, b | c) produced by the package"]
 BUDGET = {"quick": {"random": 1500}, "thorough": {"random": 30000}}
